@@ -11,11 +11,13 @@
   * `expand` — what the formatter's output *text* is made of, as a tree in lexical form again: every `_indent` the
     formatter gives an element becomes a data block before the start tag (and before the end tag where `getEndTag`
     writes it), data blocks are rewritten by the data rule, empty ones vanish.
-    `outer_decorate_eq`: the serialisation of the decorated tree is the rendering of that tree's tokens.
+    `outer_decorate_eq`: the serialisation of the decorated tree is the rendering of that tree's tokens, in the
+    start-tag style of the formatter's element class (`styleOf`: normal ` >` / ` />`, slim `>` / `/>`).
   * `mergeL` — adjacent data blocks glued (what re-tokenising does); same rendering (`render_mergeL`).
 -/
 import AHP.Lemmas.Format
 import AHP.Lemmas.LexRoundTrip
+import AHP.Lemmas.FormatLexSlim
 namespace AHP.Fmt
 open AHP
 
@@ -90,6 +92,29 @@ theorem startTagNormal_eq (n : Str) (st : AStore) (sc : Bool) (ind : Str) :
   unfold startTagNormal
   rw [attrString_eq]
   cases sc <;> simp [renderTok, str]
+
+/-- how the element class of a formatter ends its start tags -/
+def styleOf : Kind → TagStyle
+  | .normal => TagStyle.normal
+  | .slim ssc => TagStyle.slim ssc
+
+theorem styleOf_ok (k : Kind) : (styleOf k).OK := by
+  cases k with
+  | normal => exact TagStyle.normal_ok
+  | slim ssc => exact TagStyle.slim_ok ssc
+
+/-- the start tag of either element class is the `_indent` followed by the rendering of the start token in the
+    class's style (`AdvancedTagSlim.getStartTag`'s string surgery included) -/
+theorem startTag_eq (k : Kind) (n : Str) (st : AStore) (sc : Bool) (ind : Str) :
+    startTag k n st sc ind
+      = ind ++ renderTokY (styleOf k) (if sc then .startend n st.items else .start n st.items) := by
+  cases k with
+  | normal =>
+    rw [show startTag .normal n st sc ind = startTagNormal n st sc ind from rfl, startTagNormal_eq]
+    simp only [styleOf, renderTokY_normal]
+  | slim ssc =>
+    rw [startTag_slim, attrString_eq]
+    cases sc <;> cases ssc <;> simp [styleOf, TagStyle.slim, renderTokY, str]
 
 /-! ### trees in lexical form -/
 
@@ -191,22 +216,25 @@ def expandL (cfg : Cfg) (c : Ctx) (parent : Str) : List FNode → List FNode
   | k :: ks => expand cfg c parent k ++ expandL cfg c parent ks
 end
 
-theorem render_dataTok (s : Str) : renderToks (ftoksL (dataTok s)) = s := by
+theorem render_dataTok (y : TagStyle) (s : Str) : renderToksY y (ftoksL (dataTok s)) = s := by
   unfold dataTok
   by_cases h : s.isEmpty = true
   · have : s = [] := by simpa using h
     subst this; rfl
-  · simp [h, ftoksL, FNode.toks, renderToks, renderTok]
+  · simp [h, ftoksL, FNode.toks, renderToksY, renderTokY, renderTok]
 
 theorem decorate_tok (cfg : Cfg) (c : Ctx) (p : Str) (t : Token) (h : isTextLike t = true) :
-    outer (decorate cfg c p (FNode.tok t).toNode) = renderToks (ftoksL (expandTok c p t)) := by
+    outer (decorate cfg c p (FNode.tok t).toNode) = renderToksY (styleOf cfg.kind) (ftoksL (expandTok c p t)) := by
   cases t with
   | data s =>
     simp only [FNode.toNode, isVerb, renderTok, decorate, outer, expandTok]
     rw [render_dataTok]; rfl
-  | entity e => simp [FNode.toNode, isVerb, decorate, outer, expandTok, ftoksL, FNode.toks, renderToks]
-  | charref e => simp [FNode.toNode, isVerb, decorate, outer, expandTok, ftoksL, FNode.toks, renderToks]
-  | comment e => simp [FNode.toNode, isVerb, decorate, outer, expandTok, ftoksL, FNode.toks, renderToks]
+  | entity e =>
+    simp [FNode.toNode, isVerb, decorate, outer, expandTok, ftoksL, FNode.toks, renderToksY, renderTokY]
+  | charref e =>
+    simp [FNode.toNode, isVerb, decorate, outer, expandTok, ftoksL, FNode.toks, renderToksY, renderTokY]
+  | comment e =>
+    simp [FNode.toNode, isVerb, decorate, outer, expandTok, ftoksL, FNode.toks, renderToksY, renderTokY]
   | decl d => simp [isTextLike] at h
   | unknownDecl d => simp [isTextLike] at h
   | pi d => simp [isTextLike] at h
@@ -225,35 +253,35 @@ def TextLikeL : List FNode → Prop
 end
 
 mutual
-/-- **the serialisers agree on decorated trees**: what the normal element class writes for the decorated tree is
-    the rendering of the tokens of `expand` -/
-theorem outer_decorate_eq (cfg : Cfg) (hk : cfg.kind = .normal) (c : Ctx) (p : Str) :
+/-- **the serialisers agree on decorated trees**: what the formatter's element class writes for the decorated tree
+    is the rendering, in that class's start-tag style, of the tokens of `expand` -/
+theorem outer_decorate_eq (cfg : Cfg) (c : Ctx) (p : Str) :
     ∀ u : FNode, u.TextLike →
-      outer (decorate cfg c p u.toNode) = renderToks (ftoksL (expand cfg c p u))
+      outer (decorate cfg c p u.toNode) = renderToksY (styleOf cfg.kind) (ftoksL (expand cfg c p u))
   | .tok t, h => by
     simp only [FNode.TextLike] at h
     simp only [expand]
     exact decorate_tok cfg c p t h
   | .elem n st sc kids, h => by
     simp only [FNode.TextLike] at h
-    simp only [FNode.toNode, decorate, outer, expand, hk, startTag]
-    rw [startTagNormal_eq, ftoksL_append, renderToks_append, render_dataTok]
+    simp only [FNode.toNode, decorate, outer, expand]
+    rw [startTag_eq, ftoksL_append, renderToksY_append, render_dataTok]
     cases sc with
     | true =>
-      simp [ftoksL, FNode.toks, renderToks, endTag]
+      simp [ftoksL, FNode.toks, renderToksY, endTag]
     | false =>
-      have ih := innerL_decorate_eq cfg hk (c.push n) n kids h
-      simp only [Bool.false_eq_true, if_false, ftoksL, FNode.toks, List.append_nil, renderToks,
-        renderToks_append, ftoksL_append, render_dataTok, endTag_eq, ih, List.append_assoc,
-        List.cons_append, List.nil_append]
-theorem innerL_decorate_eq (cfg : Cfg) (hk : cfg.kind = .normal) (c : Ctx) (p : Str) :
+      have ih := innerL_decorate_eq cfg (c.push n) n kids h
+      have hend : renderTokY (styleOf cfg.kind) (.end_ n) = renderTok (.end_ n) := rfl
+      simp only [Bool.false_eq_true, if_false, ftoksL, FNode.toks, List.append_nil, renderToksY,
+        renderToksY_append, ftoksL_append, render_dataTok, endTag_eq, ih, List.append_assoc, hend]
+theorem innerL_decorate_eq (cfg : Cfg) (c : Ctx) (p : Str) :
     ∀ ks : List FNode, TextLikeL ks →
-      innerL (decorateL cfg c p (toNodeL ks)) = renderToks (ftoksL (expandL cfg c p ks))
-  | [], _ => by simp [toNodeL, decorateL, innerL, expandL, ftoksL, renderToks]
+      innerL (decorateL cfg c p (toNodeL ks)) = renderToksY (styleOf cfg.kind) (ftoksL (expandL cfg c p ks))
+  | [], _ => by simp [toNodeL, decorateL, innerL, expandL, ftoksL, renderToksY]
   | k :: ks, h => by
     simp only [TextLikeL] at h
-    simp only [toNodeL, decorateL, innerL, expandL, ftoksL_append, renderToks_append]
-    rw [outer_decorate_eq cfg hk c p k h.1, innerL_decorate_eq cfg hk c p ks h.2]
+    simp only [toNodeL, decorateL, innerL, expandL, ftoksL_append, renderToksY_append]
+    rw [outer_decorate_eq cfg c p k h.1, innerL_decorate_eq cfg c p ks h.2]
 end
 
 /-! ### gluing adjacent data blocks -/
@@ -273,33 +301,37 @@ def mergeL : List FNode → List FNode
   | .elem n st sc kids :: ks => .elem n st sc (mergeL kids) :: mergeL ks
 end
 
-theorem render_pushTok (t : Token) (r : List FNode) :
-    renderToks (ftoksL (pushTok t r)) = renderTok t ++ renderToks (ftoksL r) := by
+theorem tok_not_tag (y : TagStyle) (t : Token) (h : isTextLike t = true) : renderTokY y t = renderTok t := by
+  cases t <;> first | rfl | simp [isTextLike] at h
+
+theorem render_pushTok (y : TagStyle) (t : Token) (r : List FNode) :
+    renderToksY y (ftoksL (pushTok t r)) = renderTokY y t ++ renderToksY y (ftoksL r) := by
   unfold pushTok
   split
-  · simp [ftoksL, FNode.toks, renderToks, renderTok]
-  · simp [ftoksL, FNode.toks, renderToks]
+  · simp [ftoksL, FNode.toks, renderToksY, renderTokY, renderTok]
+  · simp [ftoksL, FNode.toks, renderToksY]
 
 mutual
-theorem render_merge : ∀ u : FNode, renderToks (merge u).toks = renderToks u.toks
+theorem render_merge (y : TagStyle) : ∀ u : FNode, renderToksY y (merge u).toks = renderToksY y u.toks
   | .tok t => by simp [merge]
   | .elem n st sc kids => by
     simp only [merge, FNode.toks]
     cases sc with
     | true => rfl
     | false =>
-      simp only [Bool.false_eq_true, if_false, renderToks, renderToks_append]
-      rw [render_mergeL kids]
-theorem render_mergeL : ∀ ks : List FNode, renderToks (ftoksL (mergeL ks)) = renderToks (ftoksL ks)
+      simp only [Bool.false_eq_true, if_false, renderToksY, renderToksY_append]
+      rw [render_mergeL y kids]
+theorem render_mergeL (y : TagStyle) : ∀ ks : List FNode,
+    renderToksY y (ftoksL (mergeL ks)) = renderToksY y (ftoksL ks)
   | [] => by simp [mergeL]
   | .tok t :: ks => by
-    simp only [mergeL, render_pushTok, ftoksL, FNode.toks, renderToks_append, renderToks, List.append_nil]
-    rw [render_mergeL ks]
+    simp only [mergeL, render_pushTok, ftoksL, FNode.toks, renderToksY_append, renderToksY, List.append_nil]
+    rw [render_mergeL y ks]
   | .elem n st sc kids :: ks => by
-    have h1 := render_merge (.elem n st sc kids)
+    have h1 := render_merge y (.elem n st sc kids)
     simp only [merge] at h1
-    simp only [mergeL, ftoksL, renderToks_append]
-    rw [h1, render_mergeL ks]
+    simp only [mergeL, ftoksL, renderToksY_append]
+    rw [h1, render_mergeL y ks]
 end
 
 end AHP.Fmt
